@@ -325,8 +325,21 @@ func (g *schemaGen) schema(depth int, descended bool) map[string]any {
 		g.leaf(s)
 		return s
 	}
+	if !g.draft7 && c.W(5) == 0 {
+		// Anchors from a pool of two names, so that the same name is sometimes declared twice in
+		// one resource (the library tolerates that in 2020-12 documents: the first declaration in
+		// its sorted walk wins - whatever it does must not depend on map order or on the process).
+		a := pick(c, []string{"A1", "A2"})
+		s["$anchor"] = a
+		g.anchors = append(g.anchors, a)
+		descended = false // a reference to this anchor from inside must pass through instance descent
+	}
 	ngroups := 1 + c.W(3)
 	for i := 0; i < ngroups; i++ {
+		if descended && !g.draft7 && len(g.anchors) > 0 && c.W(6) == 0 {
+			s["$ref"] = "#" + pick(c, g.anchors)
+			continue
+		}
 		switch c.W(12) {
 		case 0, 1:
 			g.leaf(s)
@@ -357,6 +370,9 @@ func (g *schemaGen) schema(depth int, descended bool) map[string]any {
 		case 11:
 			if descended && !g.draft7 && c.W(2) == 0 {
 				s["$ref"] = "#"
+				if len(g.anchors) > 0 && c.W(2) == 0 {
+					s["$ref"] = "#" + pick(c, g.anchors)
+				}
 			}
 			g.leaf(s)
 		}
@@ -417,8 +433,10 @@ func (g *schemaGen) object(s map[string]any, depth int) {
 		switch kw {
 		case 0:
 			m := map[string]any{}
-			for _, k := range subset(c, propPool, 1, 4) {
-				m[k] = g.schema(depth-1, true)
+			if c.W(10) != 0 { // sometimes present but empty
+				for _, k := range subset(c, propPool, 1, 4) {
+					m[k] = g.schema(depth-1, true)
+				}
 			}
 			s["properties"] = m
 		case 1:
